@@ -197,7 +197,10 @@ func (configgen *ConfigGeneratorImpl) buildSidecarOutboundHTTPRouteConfig(
 		}
 		if listenerPort > 0 {
 			// only cache for tcp ports and not for uds
-			vHostCache[listenerPort] = virtualHosts
+			// The cache gets its own slice: the route configuration built below is sorted and patched in place
+			// (an EnvoyFilter VIRTUAL_HOST REMOVE compacts the slice and nils its tail), and the cached list is
+			// read again for the sniffed host:port routes of this port.
+			vHostCache[listenerPort] = slices.Clone(virtualHosts)
 		}
 
 		// FIXME: This will ignore virtual services with hostnames that do not match any service in the registry
